@@ -220,6 +220,21 @@ def run(ctx):
                     par = h.reach([c.target], avoid_blocks=[inner] + blocks, want_parents=True)
                     w = [u for (u, v) in exits if u in par]
                     r5.check(not w, "release-counts:%s#%d" % (nm, k), "a release after %s counts a %s transaction" % (c.name.split("::")[-1], nm), "the server can be released after %s without counting the transaction on the %s" % (c.name.split("::")[-1], nm), c.where())
+            # ... once: a transaction is counted where it ends. A round trip that only started a COPY (CopyInResponse) has not ended
+            # anything, the CopyDone/CopyFail arm counts it; so every counting site is reached only where in_copy_mode() was false after the round trip
+            hsw5 = switches(h)
+            _T5, F5, _ = call_bool_edges(h, "pgcat::server::Server::in_copy_mode", switches_cache=hsw5)
+            n5 = 0
+            for c in h.calls("pgcat::client::Client::send_and_receive_loop"):
+                if c.block not in inner_blocks or c.target is None:
+                    continue
+                for nm, blocks in (("client", ct), ("server", st)):
+                    n5 += 1
+                    reach5 = set(h.reach([c.target], avoid_blocks=[inner], avoid_edges=set(F5)))
+                    early = [b_ for b_ in blocks if b_ in reach5]
+                    r5.check(bool(F5) and not early, "counted-when-ended:%s#%d" % (nm, n5), "after send_and_receive_loop a %s transaction is counted only where in_copy_mode() is false" % nm,
+                             "after a round trip that only started a COPY FROM STDIN (CopyInResponse, not in a transaction block) a %s transaction is counted, and the CopyDone arm counts it again when the COPY ends: "
+                             "one autocommit COPY shows as two transactions in SHOW STATS" % nm, c.where())
     sr = ctx.body("pgcat::client::Client::send_and_receive_loop::{closure#0}", r5)
     if sr:
         oks = [blk for blk, i, st in sr.assigns() if st["lhs"]["l"] == 0 and st["rv"]["k"] == "agg" and st["rv"].get("variant") == "Ok"]
